@@ -74,14 +74,21 @@ void AppendDomain(util::Serializer &dump, const std::string domain)
     dump << uint8_t(0);
 }
 
+//! 域名压缩指针的最大跳转次数，防止指针成环导致无限递归
+const int kMaxDomainPointerHops = 16;
+
 /// 从缓冲中提取domain，与AppendDomain()相反
-std::string FetchDomain(util::Deserializer &parser)
+/**
+ * \return  false   数据不完整、压缩指针越界或跳转次数超限
+ */
+bool FetchDomain(util::Deserializer &parser, std::string &domain, int hops = 0)
 {
     std::ostringstream oss;
     bool first = true;
     for (;;) {
         uint8_t len = 0;
-        parser >> len;
+        if (!parser.fetch(len))
+            return false;
         if (len == 0)
             break;
 
@@ -92,20 +99,29 @@ std::string FetchDomain(util::Deserializer &parser)
         //! 处理压缩的字串
         if ((len & 0xc0) == 0xc0) {
             uint8_t offset_low = 0;
-            parser >> offset_low;
+            if (!parser.fetch(offset_low))
+                return false;
+            if (hops >= kMaxDomainPointerHops)
+                return false;
             uint16_t offset = (len & 0x3f) << 8 | offset_low;
             util::Deserializer sub_parser(parser);
-            sub_parser.set_pos(offset);
-            oss << FetchDomain(sub_parser);
+            if (!sub_parser.set_pos(offset))
+                return false;
+            std::string sub_domain;
+            if (!FetchDomain(sub_parser, sub_domain, hops + 1))
+                return false;
+            oss << sub_domain;
             break;
         } else {
             char str[len + 1];
-            parser.fetch(str, len);
+            if (!parser.fetch(str, len))
+                return false;
             str[len] = '\0';
             oss << str;
         }
     }
-    return oss.str();
+    domain = oss.str();
+    return true;
 }
 
 }
@@ -240,13 +256,21 @@ void DnsRequest::onUdpRecv(const void *data_ptr, size_t data_size, const SockAdd
 
         //! 解析Question字段
         for (uint16_t i = 0; i < qd_count; ++i) {
-            FetchDomain(parser);
+            std::string qd_name;
+            if (!FetchDomain(parser, qd_name)) {
+                LogNotice("malformed dns reply, ignored");
+                return;
+            }
             uint16_t dns_type, dns_class;
             parser >> dns_type >> dns_class;
         }
 
         for (uint16_t i = 0; i < an_count; ++i) {
-            FetchDomain(parser);
+            std::string an_name;
+            if (!FetchDomain(parser, an_name)) {
+                LogNotice("malformed dns reply, ignored");
+                return;
+            }
             uint16_t an_type, an_class, an_len;
             uint32_t an_ttl;
             parser >> an_type >> an_class >> an_ttl >> an_len;
@@ -263,7 +287,11 @@ void DnsRequest::onUdpRecv(const void *data_ptr, size_t data_size, const SockAdd
                 result.a_vec.push_back(a);
 
             } else if (an_type == DNS_TYPE_CNAME) {
-                std::string domain = FetchDomain(parser);
+                std::string domain;
+                if (!FetchDomain(parser, domain)) {
+                    LogNotice("malformed dns reply, ignored");
+                    return;
+                }
                 CNAME cname = { an_ttl, DomainName(domain) };
                 result.cname_vec.push_back(cname);
 
